@@ -116,7 +116,7 @@ def run(ctx):
         p = byprog[c["pid"]]
         spec = trees[c["pid"]]
         canon = [x for x in c["out"]]
-        dk = sorted(set(x.split(":")[0] for x in c["out"] if x.split(":")[0] in ("sp", "cmt", "eolc1", "eolc2", "blankline", "comma", "brk", "brk0", "asg2", "dot2", "op2", "lp2", "rp2", "col2", "comma2", "lb2", "rb2", "q2", "bang2")))
+        dk = sorted(set(x.split(":")[0] for x in c["out"] if x.split(":")[0] in ("sp", "cmt", "eolc1", "eolc2", "blankline", "comma", "brk", "brk0", "asg2", "dot2", "op2", "opt", "op2t", "lp2", "rp2", "col2", "comma2", "lb2", "rb2", "q2", "bang2")))
         for k in dk: devkinds[k] = devkinds.get(k, 0) + 1
         tag = "+".join(dk) or ("globals:%s/%s" % (c["unit"], c["eol"]))
         def rep(kind, what):
@@ -136,7 +136,7 @@ def run(ctx):
                rule="%d programs covering every statement kind, expression form and program section (imports, inputs, types with properties/getters/methods/constructors, methods with "
                     "handlers, statements, handlers; drawn from the hand-written grammar family and from the C02/C06/C07/C08/C09 families). For each program TLC computes Tree(prog) "
                     "(checked complete) and Tokens(prog), and the layout machine emits: the canonical rendering, EVERY rendering with exactly one deviation (synonym spelling, ASCII "
-                    "punctuation, extra blank, /* */ comment, end-of-line // and 注： comments, blank line, comma before 且/或/得到, line break after 【 ， 、 { and before 】 }), all 6 "
+                    "punctuation, comparison / logic operators written without surrounding blanks, extra blank, /* */ comment, end-of-line // and 注： comments, blank line, comma before 且/或/得到, line break after 【 ， 、 { and before 】 }), all 6 "
                     "combinations of indentation unit x line terminator, and %d simulated renderings with up to 5 deviations; every rendering is parsed by the real parser and the "
                     "dumped tree must equal Tree(prog) (hence all renderings agree) and be complete" % (len(progs), 400 if quick else 6000),
                programs=len(progs), deviation_kinds=devkinds)
